@@ -398,10 +398,10 @@ theorem translated_errreg_check_started_refuses (env : Nat → St → St) (s : T
   rw [translated_errreg_check_started_is_model]; simp [h, h2, hr, TS.await]
 
 /-- `shutdown()` of a started simulation IS the model's `shut` wake followed by `shutdownRaises`: up to
-    `await self._simtask` exactly `abort(CancelledError('shutdown'))` is delivered (the model's `wakeStep … shut`:
-    state and delivery log), and when the simulation task has ended -- whatever happened meanwhile -- the call
-    returns iff the recorded error is a cancellation, else re-raises the recorded error.
-    (`hr`: the caller is not cancelled while it awaits; see `translated_errreg_shutdown_cancelled_after_abort`) -/
+    `await asyncio.wait([self._simtask])` exactly `abort(CancelledError('shutdown'))` is delivered (the model's
+    `wakeStep … shut`: state and delivery log), and when the simulation task has ended -- whatever happened
+    meanwhile -- the call returns iff the recorded error is a cancellation, else re-raises the recorded error.
+    (`hr`: the caller is not cancelled while it waits; see `translated_errreg_shutdown_caller_cancel_not_forwarded`) -/
 theorem translated_errreg_shutdown_is_model (env : Nat → St → St) (s : TS) (h : s.st.phase ≠ .notStarted)
     (hr : s.cancelAt s.log.length = false) :
     TrE.shutdown (sdPrims env false) s =
@@ -411,11 +411,11 @@ theorem translated_errreg_shutdown_is_model (env : Nat → St → St) (s : TS) (
        | some e => .raise (.err e)
        | none => .next ()) := by
   unfold TrE.shutdown
-  simp [h, hr, translated_errreg_check_started_passes, bind_apply, get_apply, pure_apply, tryExcept_apply, abortP, awaitSim, wakeStep,
-    runForeverRaises, shutdownRaises]
+  simp [h, hr, translated_errreg_check_started_passes, bind_apply, get_apply, abortP, awaitM,
+    wakeStep, runForeverRaises, shutdownRaises]
   cases he : ((TS.await env Aw.simtask { s with st := s.st.abort (Err.cancelled 1), dels := s.dels ++ [Err.cancelled 1] }).st.error) with
-  | none => simp
-  | some e => cases hc : e.isCancel <;> simp [hc, pure_apply, raise_apply]
+  | none => simp [he, bind_apply, pure_apply]
+  | some e => cases hc : e.isCancel <;> simp [he, hc, pure_apply, raise_apply, bind_apply]
 
 /-- shutdown() of a simulation that was never started (and does not start during the yield either):
     EdzedInvalidState, nothing is delivered -- the model's `shut` wake in phase `notStarted` changes nothing -/
@@ -427,20 +427,28 @@ theorem translated_errreg_shutdown_not_started (env : Nat → St → St) (cur : 
   unfold TrE.shutdown
   simp [h, h2, hr, translated_errreg_check_started_refuses, bind_apply, wakeStep]
 
-/-- the caller of shutdown() is cancelled while it awaits the simulation task: `abort(CancelledError('shutdown'))`
-    was ALREADY delivered (the model's `shut` wake: state and delivery log), asyncio forwards the cancellation to the
-    awaited task (the model's `rawCancel`), and -- what the code does -- the `except CancelledError: pass` meant for
-    the simulation's own cancellation swallows the caller's, so shutdown() returns normally although the
-    simulation task may still be cleaning up -/
-theorem translated_errreg_shutdown_cancelled_after_abort (env : Nat → St → St) (s : TS) (h : s.st.phase ≠ .notStarted)
+/-- the caller of shutdown() is cancelled while it waits for the simulation task (`asyncio.wait`):
+    `abort(CancelledError('shutdown'))` was ALREADY delivered (the model's `shut` wake: state and delivery log), the
+    cancellation is NOT forwarded to the simulation task -- its state is exactly what the environment made of it
+    during the await, there is no `rawCancel` step, the cleanup runs on --, and shutdown() raises the CALLER's own
+    CancelledError (`callerCancelled`), whatever the state of the simulation task at that moment -/
+theorem translated_errreg_shutdown_caller_cancel_not_forwarded (env : Nat → St → St) (s : TS) (h : s.st.phase ≠ .notStarted)
     (hx : s.cancelAt s.log.length = true) :
-    (TrE.shutdown (sdPrims env false) s =
-      (let s1 : TS := { s with st := (wakeStep s.st .shut).1, dels := s.dels ++ (wakeStep s.st .shut).2 }
-       ({ s1.await env .simtask with st := (step (s1.await env .simtask).st .rawCancel).1 }, .next ()))) ∧
+    let s1 : TS := { s with st := (wakeStep s.st .shut).1, dels := s.dels ++ (wakeStep s.st .shut).2 }
+    (TrE.shutdown (sdPrims env false) s = (s1.await env .simtask, .raise callerCancelled)) ∧
+    (TrE.shutdown (sdPrims env false) s).1.st = env s.log.length (s.st.abort (.cancelled 1)) ∧
     (TrE.shutdown (sdPrims env false) s).1.dels = s.dels ++ [.cancelled 1] := by
   unfold TrE.shutdown
-  simp [h, hx, translated_errreg_check_started_passes, bind_apply, get_apply, pure_apply, tryExcept_apply, abortP, awaitSim,
-    wakeStep, callerCancelled, TS.await]
+  simp [h, hx, translated_errreg_check_started_passes, bind_apply, get_apply, abortP, awaitM, wakeStep, TS.await]
+
+/-- non-vacuity of the two theorems above: a running simulation, once with a caller that is not cancelled, once
+    with a caller cancelled while the simulation is still cleaning up (shutdown() raises the caller's
+    CancelledError and the simulation's state is the environment's, not a `rawCancel` successor) -/
+example :
+    let s : TS := { st := { phase := .tryBlock } }
+    (s.st.phase ≠ .notStarted ∧ s.cancelAt s.log.length = false) ∧
+    (TrE.shutdown (sdPrims (fun _ t => t) false) { s with cancelAt := fun _ => true }).2 = .raise callerCancelled := by
+  simp [TrE.shutdown, callFn, TrE.checkStarted, bind_apply, get_apply, pure_apply, abortP, awaitM, TS.await]
 
 /-- shutdown() called from the simulation task itself is refused BEFORE anything is delivered -/
 theorem translated_errreg_shutdown_refused_in_simtask (env : Nat → St → St) (s : TS) (h : s.st.phase ≠ .notStarted) :
